@@ -37,6 +37,16 @@ def run(ctx):
     cov["per_config"]["MC_Agent_converge.cfg"] = {"distinct": res["distinct"], "status": res["status"]}
     cex, r2 = af.tlc_cex(ctx, "MC_Agent_bad_norecheck.cfg", "bad_norecheck")
     cov["per_config"]["MC_Agent_bad_norecheck.cfg"] = {"status": r2["status"], "expected": "violation"}
+    # configuration reloads (the default set changes while upgrade requests are queued) and I/O failures of the library
+    for cfg in ("MC_Agent_local_reload.cfg", "MC_Agent_local_iofault.cfg", "MC_Agent_setonly_noreload.cfg"):
+        res = ctx.run_tlc("MC_Agent.tla", cfg, workers=16, timeout=1500, heap="12g")
+        ctx.tlc_must_pass(res, cfg)
+        cov["states"] += res["distinct"]
+        cov["transitions"] += res["generated"]
+        cov["per_config"][cfg] = {"distinct": res["distinct"], "status": res["status"]}
+    # re-validating only "still upgradeable" is safe without reloads (above) and refuted with them: the counterexample is replayed
+    cex2, r3 = af.tlc_cex(ctx, "MC_Agent_bad_setonly_reload.cfg", "bad_setonly_reload")
+    cov["per_config"]["MC_Agent_bad_setonly_reload.cfg"] = {"status": r3["status"], "expected": "violation"}
 
     # Store level: `upgradeable` flag and the parameter set of written records, on every Store edge
     storefam.run_family(ctx, only_ops=("auth", "add", "update", "init"))
@@ -48,6 +58,21 @@ def run(ctx):
         scs.append(scen("converge-%s" % u, "local", one(login("c1", u, p)),
                         expect_idle={u: {"set": 2, "pw": p, "adm": adm, "aux": "orig"}}, expect_prop="C12",
                         expect_key="idle-upgrade-did-not-happen-or-damaged-record"))
+    # the same with every kind of auxiliary data (the variants rotate with the scenario seed): byte-identical after the rewrite
+    for sd in range(2, 6):
+        scs.append(scen("converge-aux-%d" % sd, "local", one(login("c1", "u1", "p1"), {"t": "sleep", "n": 30}, login("c2", "u2", "p2")), seed=sd,
+                        expect_idle={"u1": {"set": 2, "pw": "p1", "adm": False, "aux": "orig"}, "u2": {"set": 2, "pw": "p2", "adm": True, "aux": "orig"}},
+                        expect_prop="C12", expect_key="idle-upgrade-did-not-happen-or-damaged-record"))
+    # the upgrade fails with an I/O error (unusable work area): the record stays exactly as it was; once the fault is gone
+    # the next login upgrades it
+    for sd in (1, 2, 3):
+        scs.append(scen("upgrade-io-fault-%d" % sd, "local",
+                        [{"t": "breaktmp"}, login("c1", "u1", "p1"), {"t": "sleep", "n": 60}, login("c2", "u2", "p2"), {"t": "sleep", "n": 60},
+                         {"t": "send", "c": "c3", "k": "update", "u": "u3", "p": "p1", "a": False}, {"t": "sleep", "n": 60},
+                         {"t": "fixtmp"}, login("c4", "u1", "p1"), {"t": "free"}], seed=sd,
+                        expect_idle={"u1": {"set": 2, "pw": "p1", "adm": False, "aux": "orig"}, "u2": {"set": 3, "pw": "p2", "adm": True, "aux": "orig"},
+                                     "u3": {"set": 2, "pw": "p3", "adm": False, "aux": "orig"}},
+                        expect_prop="C12", expect_key="failed-upgrade-damaged-record"))
     # up-to-date user and wrong passwords: nothing is rewritten at all
     scs.append(scen("noop-uptodate", "local", one(login("c1", "u3", "p3")), expect_unchanged=True, expect_prop="C12",
                     expect_key="login-rewrote-up-to-date-record"))
@@ -73,6 +98,9 @@ def run(ctx):
     # gated: the stale-upgrade counterexample and simulated behaviours
     if cex:
         scs.append(af.scenario_from_cex(cex, "cex-stale-upgrade", "local"))
+    if cex2:      # Go's select may take the queued upgrade before the reload: several attempts
+        for i in range(8 if not thorough else 24):
+            scs.append(af.scenario_from_cex(cex2, "cex-stale-upgrade-reload-%d" % i, "local"))
     scs += af.simulated_scenarios(ctx, 25 if not thorough else 200)
     for i in range(4 if not thorough else 24):
         scs.append(load_scenario("load-%d" % i, ["local", ""][i % 2], ctx.seed * 77 + i, clients=8, calls=12,
